@@ -222,6 +222,13 @@ class C01(RunSpec):
             p.update({"leaf": _cycle(CMA_ENGINES, idx // 16), "fams": ["face", "linear", "face"], "levels": [2, 2, 3], "gsc": "melimit", "free_lscs": True,
                       "root": _cycle(["sea", "de", "shade", "lhs"], idx // 16), "allow_cutoff": False})
             p.pop("gscs", None)
+        if idx % 16 == 4:
+            # a box with one very narrow coordinate next to zero and the default sampling width (1.0) for sprouted populations: almost every
+            # draw around the seed is rejected (thousands of draws per accepted individual) - whatever a sampler does when it gives up on
+            # rejection, the point it returns must be in the box
+            p.update({"root": _cycle(["sea", "de"], idx // 16), "leaf": _cycle(["sea", "de", "shade"], idx // 16), "n_levels": 2, "fams": ["sphere", "rastrigin"], "box": "needle",
+                      "sprout": "simple", "gsc": "melimit", "free_lscs": True, "allow_cutoff": False, "dim": (2, 2), "level_limit": 3, "hibernation": False})
+            p.pop("gscs", None)
         if idx % 16 == 2:
             # local searches in a box narrower than the step of scipy's numerical derivative
             p.update({"root": _cycle(["sea", "de", "lhs"], idx // 16), "leaf": _cycle(["local", "local_maxiter"], idx // 16), "n_levels": 2, "fams": ["linear", "face", "sphere"], "box": "nano",
@@ -252,6 +259,16 @@ class C01(RunSpec):
 
     def make_case(self, seed, idx, tier):
         d = super().make_case(seed, idx, tier)
+        if idx % 16 == 4 and d.get("kind") == "tree" and len(d["levels"]) == 2:
+            narrow = [(-0.001, 0.001), (0.0, 0.002), (-0.002, 0.0005)][(idx // 16) % 3]
+            d["box"] = {"cls": "needle", "bounds": [[-5.0, 5.0], list(narrow)]}
+            d["levels"][0].update({"pop": 12, "lsc": {"k": "dontstop"}, "mutation_std": 0.5} if d["levels"][0]["engine"] == "sea" else {"pop": 12, "lsc": {"k": "dontstop"}})
+            d["levels"][1].update({"pop": 16, "sample_std": 1.0, "lsc": {"k": "melimit", "n": 1}, "gens": 1})
+            if "mutation_std" in d["levels"][1]:
+                d["levels"][1]["mutation_std"] = 0.0005
+            d["sprout"]["far"] = 1e-5
+            d["gsc"] = {"k": "melimit", "n": 5}
+            d["options"].pop("log_level", None)
         if idx % 16 == 9 and d.get("kind") == "tree" and len(d["levels"]) == 2 and d["levels"][1]["engine"] == "ga":
             rmin = min(b[1] - b[0] for b in d["box"]["bounds"])
             d["levels"][0].update({"pop": 20, "gens": 40, "lsc": {"k": "dontstop"}})
@@ -287,6 +304,7 @@ class C01(RunSpec):
         fl += [("C01.within_1e-12_of_a_face_with_result_cache.CMADeme metaepoch", 1, "CMA-ES evaluated a point within 1e-12 of a face of a full-precision box with result caching on"),
                ("C01.within_1e-12_of_a_face_with_result_cache.LocalDeme metaepoch", 1, "a local search evaluated a point within 1e-12 of a face of a full-precision box with result caching on")]
         fl += [("C01.ga_style_deme_evaluations_with_a_coordinate_exactly_on_a_face_of_a_decimal_box", 50, "evaluations of a GA-style deme with a coordinate exactly on a face of a box with decimal bounds (5.12, 0.9, ...)")]
+        fl += [("C01.individuals_sampled_around_a_seed_with_a_width_500_times_a_side_of_the_box", 100, "individuals of sprouted populations sampled with a width >= 500 x the narrowest side of the box")]
         fl += [("C01.local_search_evaluations_in_a_box_narrower_than_a_derivative_step", 30, "evaluations of local searches in boxes narrower than 1.5e-8")]
         fl += [("C01.local_deme_sprouted_from_a_seed_with_infinite_fitness", 2, "local search sprouted from a seed whose objective value is infinite")]
         fl += [("local_method_name_in_lower_case", 2, "local level whose method name is given in lower case")]
